@@ -581,7 +581,7 @@ func c06r3(c *RC) {
 						tempArg = expr(x.Args[0])
 					}
 				case *ast.BinaryExpr:
-					if x.Op == token.EQL && strings.HasSuffix(expr(x.Y), "EOF") {
+					if x.Op == token.EQL && (strings.HasSuffix(expr(x.Y), "EOF") || strings.HasSuffix(expr(x.X), "EOF")) {
 						hasEOF = true
 					}
 				}
